@@ -17,9 +17,10 @@ PID, SEL = "C05", 5
 ASSUMPTIONS = [
     "class grammar: K1 leaf (optionally keyed / frozen), K2 node with int/str/Optional attributes, nested spec attribute, List/Dict/Set of scalars, List/Dict of (keyed) spec classes, defaults none / immutable / mutable / default_factory / Attr / dataclasses.field, attribute and item preparers, invalidated_by (one dependant, also '*'), do_not_copy attributes, K3 spec subclass with re-defaulted attribute, lazy and eager bootstrap; KeyedList/KeyedSet attributes, do_not_copy=True classes, init=False attributes and plain subclasses are outside the instance model",
     "plain (undecorated) subclasses, one and two levels, overriding inherited defaults by class attributes (scalar and mutable): 60 (quick) / 600 (thorough) histories per run with reset_<a> / del / reset() / with_ / assignment on their instances; rendered by inst_common (c_owner, c_overrides) and judged by the documentation oracle and the model tie like every other history",
-    "invalidation chains (c05_gen.chain_case): 64 (quick) / 640 (thorough) histories on tables whose invalidated_by declarations form chains a -> b -> c (also of length 3, diamonds, forks, cycles back to the head, '*' in the middle, a List dependant with mutable default / factory, a spec subclass re-defaulting the end of the chain or declaring a further dependant of an inherited attribute; declaration order shuffled); the attribute in the middle has no default and holds nothing (never assigned, or assigned and reset / deleted before) while the attributes further along were given non-default values (upstream first); then the head (70 %) or another attribute is changed by with_/update_/transform_/reset_<a>, update(a=..), transform(a=f), reset(), obj.a = v, del obj.a, copy-on-write and in place, and by paired copy-vs-in-place runs; two (quick) or three (thorough) such rounds per history",
+    "invalidation chains (c05_gen.chain_case): 64 (quick) / 640 (thorough) histories on tables whose invalidated_by declarations form chains a -> b -> c (also of length 3, diamonds, forks, cycles back to the head, '*' in the middle, a List dependant with mutable default / factory, a spec subclass re-defaulting the end of the chain or declaring a further dependant of an inherited attribute, plain subclasses one and two levels deep (of the spec class or of the spec subclass) overriding only the defaults of dependants; declaration order shuffled; receivers of every one of these classes; rejected reset_<a>(_inplace=True) / del of an empty default-less attribute in between); the attribute in the middle has no default and holds nothing (never assigned, or assigned and reset / deleted before) while the attributes further along were given non-default values (upstream first); then the head (70 %) or another attribute is changed by with_/update_/transform_/reset_<a>, update(a=..), transform(a=f), reset(), obj.a = v, del obj.a, copy-on-write and in place, and by paired copy-vs-in-place runs; two (quick) or three (thorough) such rounds per history",
     "values from the conforming pool, transforms from the pool of pure functions (identity, affine on ints, constant, fresh list, appended list, fresh dict); callbacks never raise in this check",
     "interpretation (DESIGN 4 C05): with_<a>() without a value builds an empty value of the declared type; MISSING/UNCHANGED given per keyword leave that attribute as it is; identity of the result is demanded only for _inplace=True, _if=False, with_<a>(UNCHANGED), update(MISSING|UNCHANGED) without keywords; transform(_transform=f) returns f(self); every value stored in an attribute passes through its preparer once (so transform_<a>(f) stores prepare(f(old))); reset/del restore what a new instance would hold (the declared default run through the preparers, /repo 8d0a965); transform_<a>/update_<a> on an attribute that holds nothing start from an empty value of the declared type; reset_<a>/del of an attribute that holds nothing and has no default is an AttributeError (standard Python deletion), reset() skips such attributes",
+    "a scalar helper / assignment / deletion / single-keyword update or transform that raises must leave the abstract state of the receiver as it was (Corr/SpecCorr.err_state_checked); multi-keyword update/transform(_inplace=True) and reset(_inplace=True) are C04's recorded open findings and are not judged on the state after an error",
     "frozen receivers: an in-place call must fail (FrozenInstanceError, or another documented error if the call is also wrong otherwise); in-place update()/transform() on frozen receivers are left to C07",
 ]
 
